@@ -7,7 +7,7 @@
   bytes / list of single-byte bytes      `List Nat` (values < 256 in every call the harness makes)
   str returned as a key name             `KeyVal.text cps` (code points)
   bytes returned under Keynames.BYTES    `KeyVal.bytes bs`
-  CURTSIES_NAMES, CURSES_NAMES (dicts)   association lists, `List.lookup` = dict lookup (keys are unique)
+  CURTSIES_NAMES, CURSES_NAMES (dicts)   association lists (names as code points), `List.lookup` = dict lookup
   KEYMAP_PREFIXES (set)                  a list, `List.contains`
   encoding name                          `Enc` (utf-8, ascii, latin-1: the three the property names)
 
@@ -34,8 +34,8 @@ inductive KeyVal
   deriving DecidableEq, Repr, Inhabited
 
 structure KeyTables where
-  curtsies : List (List Nat × String)
-  curses : List (List Nat × String)
+  curtsies : List (List Nat × List Nat)   -- key bytes, name as code points
+  curses : List (List Nat × List Nat)
   prefixes : List (List Nat)
   maxSize : Nat
 
@@ -79,7 +79,7 @@ def xName (b : Nat) : List Nat := [120, hexDigit (b / 16), hexDigit (b % 16)]
 def keyName (T : KeyTables) (seq : List Nat) (enc : Enc) : KeyMode → Except PyErr KeyVal
   | .curses =>
     match T.curses.lookup seq with
-    | some n => .ok (.text (cpsOf n))
+    | some n => .ok (.text n)
     | none =>
       match decode enc seq with
       | some cs => .ok (.text cs)
@@ -89,7 +89,7 @@ def keyName (T : KeyTables) (seq : List Nat) (enc : Enc) : KeyMode → Except Py
         | _ => .error .notImplementedError
   | .curtsies =>
     match T.curtsies.lookup seq with
-    | some n => .ok (.text (cpsOf n))
+    | some n => .ok (.text n)
     | none =>
       match decode enc seq with
       | some cs => .ok (.text cs)
@@ -148,13 +148,13 @@ def isAsciiDigit (c : Nat) : Bool := 48 ≤ c && c ≤ 57
 /-- `int(s)` for a non-empty string of ASCII digits -/
 def digitsVal (ds : List Nat) : Nat := ds.foldl (fun acc d => acc * 10 + (d - 48)) 0
 
-def natCps (n : Nat) : List Nat := cpsOf (toString n)
+def natCps (n : Nat) : List Nat := (Nat.toDigits 10 n).map Char.toNat
 
 /-- `keymap[key]`. `str.isdigit` is modelled on ASCII digits (other Unicode digits are outside the model's
     domain; the harness stays inside it). -/
-def keymapGet (specials : List (String × String)) (key : List Nat) : Except PyErr (List (List Nat)) :=
+def keymapGet (specials : List (List Nat × List Nat)) (key : List Nat) : Except PyErr (List (List Nat)) :=
   if key.isEmpty then .ok []
-  else match (specials.map fun p => (cpsOf p.1, cpsOf p.2)).lookup key with
+  else match specials.lookup key with
     | some v => .ok [v]
     | none =>
       if !(key.drop 1).isEmpty && key.take 2 == [67, 45] then        -- "C-"
